@@ -164,7 +164,7 @@ def main():
     except (Unsupported, PanicFound) as u:
         status = 2
         print("INCONCLUSIVE: %s" % u)
-    if failures and status == 0:
+    if failures:  # a counterexample stands even if a later scenario met an unmodelled call (it is replayed natively anyway)
         status = 1
     out = {"functions_encoded": sorted(stats["functions"]), "scenarios": stats["scenarios"], "paths": stats["paths"], "paths_proved": stats["paths"] if not failures else 0,
            "configurations_proved": stats["proved"], "queries": 0, "solver_s": 0.0, "wall_s": round(time.time() - t0, 2), "failures": failures[:10], "samples": samples}
